@@ -96,9 +96,23 @@ class CheckContext:
         if split and z3.is_and(goal) and goal.num_args() > 1:
             out = []
             for k, g in enumerate(goal.children()):
-                out.append(self.prove(f"{ident}/c{k}", hyps, g, clause=clause, tag=tag, replay=replay, fn=fn, split=False, **opts))
+                out.append(self.prove(f"{ident}/c{k}", hyps, g, clause=clause, tag=tag, replay=replay, fn=fn, split=False, **dict(opts)))
             return out
         r = self._new(f"{self.prop}/{ident}", tag, clause)
+        r.replay = replay
+        r.fn = fn
+        if opts.pop("algebra", False) and z3.is_eq(goal):
+            from . import cert
+            try:
+                c = cert.certify_equation([z(h) for h in hyps], goal.arg(0), goal.arg(1))
+            except Exception as e:  # noqa
+                c = {"ok": False, "why": f"certificate engine: {e!r}"}
+            r.detail = {k: v for k, v in c.items() if k != "ok"}
+            if c["ok"]:
+                r.verdict, r.backend, r.seconds = "proved", "algebraic-certificate(exact check)", c.get("seconds", 0.0)
+                return r
+            opts.setdefault("timeout_ms", 15000)
+            opts.setdefault("cvc5_timeout_s", 15)
         try:
             r.smt2 = solve.to_smt2(hyps, goal)
         except Exception as e:  # noqa
